@@ -12,8 +12,9 @@
 (***************************************************************************)
 EXTENDS TrackFields, Json, IOUtils, TLC
 
-VARIABLES l, fam, fb, ts, dead, pinfo, probing
-tvars == <<l, fam, fb, ts, dead, pinfo, probing>>
+VARIABLES l, fam, fb, ts, dead, pinfo, probing,
+          vs      \* tracks whose state was last changed by a field setter (not by a whole-snapshot write)
+tvars == <<l, fam, fb, ts, dead, pinfo, probing, vs>>
 Log == ndJsonDeserialize(IOEnv.TRACE)
 
 Has(r, f) == f \in DOMAIN r
@@ -33,7 +34,8 @@ GettersAgree(r, F) ==
         /\ \A f \in DOMAIN x.get : ~IsThrow(x.get[f])
         /\ \A f \in AllFields \ {"file_bytes"} :                  \* (no getter exists for file_bytes)
               x.get[f].v = x.snap.v[f]
-        /\ x.get.cue_at.v = x.snap.v.hot_cues /\ x.get.loop_at.v = x.snap.v.loops
+        \* (the driver asks for slots 0..7; a 1.x track may hold more)
+        /\ x.get.cue_at.v = SubSeq(x.snap.v.hot_cues, 1, 8) /\ x.get.loop_at.v = SubSeq(x.snap.v.loops, 1, 8)
 NoWrite(r) == r.o16.w = 0 /\ r.o16.chg = 0 /\ (Has(r.o16, "same") => r.o16.same) /\ (Has(r.o16, "rep") => r.o16.rep)
 \* observing through handles to removed tracks: completes or throws a std::exception, validity false
 StaleOK(r, D) == \A s \in ToSet(r.obs.stale) : s.id \in D /\ s.v = FALSE /\
@@ -47,6 +49,7 @@ ObsOK(r, TS, D, F, PI) ==
     /\ GettersAgree(r, F) /\ NoWrite(r) /\ StaleOK(r, D) /\ DerivedOK(r, PI)
 
 Unchanged(r) == Snaps(r) = ts
+V2TwoStatementSetters == {"bpm", "key", "sample_count", "sample_rate"}
 
 \* Known finding (see known_findings.jsonl, v1-bpm-from-grid): when a snapshot carries no BPM, the 1.x family stores
 \* the tempo of its first two beat-grid markers instead, so the absent field reads back as present.
@@ -84,10 +87,10 @@ Update(r) ==
 
 \* which snapshot field a setter addresses, and what the field must read back as
 SetField(f) == IF f = "hot_cue_at" THEN "hot_cues" ELSE IF f = "loop_at" THEN "loops" ELSE f
-SlotSet(old, i, v, offField) == [k \in 1 .. Len(old) |-> IF k = i + 1 THEN SlotNorm(v, offField) ELSE old[k]]
+SlotSet(old, i, v) == [k \in 1 .. Len(old) |-> IF k = i + 1 THEN v ELSE old[k]]
 SetOK(r, old, new) ==
-    CASE r.f = "hot_cue_at" -> r.in.i \in 0 .. Len(old) - 1 /\ new = SlotSet(old, r.in.i, r.in.v, "off")
-      [] r.f = "loop_at" -> r.in.i \in 0 .. Len(old) - 1 /\ new = SlotSet(old, r.in.i, r.in.v, "start")
+    CASE r.f = "hot_cue_at" -> r.in.i \in 0 .. Len(old) - 1 /\ new \in {SlotSet(old, r.in.i, SlotNorm(r.in.v, "off")), SlotSet(old, r.in.i, r.in.v)}
+      [] r.f = "loop_at" -> r.in.i \in 0 .. Len(old) - 1 /\ new \in {SlotSet(old, r.in.i, SlotNorm(r.in.v, "start")), SlotSet(old, r.in.i, r.in.v)}
       [] OTHER -> FieldOK(fam, fb, r.f, r.in, new)
 
 Set(r) ==
@@ -114,8 +117,18 @@ Remove(r) ==
     /\ pinfo' = pinfo
 
 \* C01: the read-back snapshot is a fixed point of update
+\* C01 promises the fixed point for snapshots read back after create_track / update.  A state reached through field
+\* setters may be one no snapshot write produces (2.x: a path without extension, a waveform without sample rate): there
+\* the step is judged like an update with the read-back snapshot as its input (it may also be refused).
+FixpointAfterSetters(r) ==
+    /\ r.t \in DOMAIN ts /\ r.t \in vs
+    /\ \/ r.out = "throw" /\ r.std /\ Unchanged(r) /\ ts' = ts
+       \/ /\ r.out = "ok" /\ r.s1 = ts[r.t] /\ SnapOKx(r.s1, r.s2)
+          /\ Snaps(r) = [ts EXCEPT ![r.t] = r.s2] /\ ts' = Snaps(r)
+    /\ dead' = dead /\ pinfo' = pinfo
+
 Fixpoint(r) ==
-    /\ r.out = "ok" /\ r.t \in DOMAIN ts
+    /\ r.out = "ok" /\ r.t \in DOMAIN ts /\ r.t \notin vs
     /\ r.s1 = ts[r.t]
     /\ \/ r.s2 = r.s1 /\ Unchanged(r) /\ ts' = ts
        \* (known finding v1-bpm-from-grid: a snapshot without BPM is not a fixed point when a beat grid is present)
@@ -136,7 +149,7 @@ TProbe ==
                                 /\ (Has(x, "snap") /\ IsThrow(x.snap) => x.snap.std)
                                 /\ (Has(x, "get") => \A f \in DOMAIN x.get : (IsThrow(x.get[f]) => x.get[f].std)))
     /\ probing' = TRUE
-    /\ l' = l + 1 /\ UNCHANGED <<fam, fb, ts, dead, pinfo>>
+    /\ l' = l + 1 /\ UNCHANGED <<fam, fb, ts, dead, pinfo, vs>>
 
 TCall ==
     /\ l <= Len(Log)
@@ -144,15 +157,29 @@ TCall ==
     /\ LET r == Log[l] IN
        /\ r.e = "call" /\ ~Has(r, "probe")
        /\ IF Faulted(r)
-          THEN /\ r.out = "throw" /\ r.std /\ r.dsame /\ Unchanged(r)        \* C14
-               /\ ts' = ts /\ dead' = dead /\ pinfo' = pinfo
+          THEN \/ /\ r.out = "throw" /\ r.std /\ r.dsame /\ Unchanged(r)        \* C14
+                  /\ ts' = ts /\ dead' = dead /\ pinfo' = pinfo
+               \* Known finding v2-setter-not-atomic: four 2.x setters issue two UPDATE statements outside a
+               \* transaction; a failure of the second leaves the first (only the addressed field may differ).
+               \/ /\ fam = "v2" /\ r.op = "set" /\ r.f \in V2TwoStatementSetters /\ r.fault.k = r.ns
+                  /\ r.out = "throw" /\ r.std /\ ~r.dsame
+                  /\ LET S == Snaps(r) IN
+                     /\ DOMAIN S = DOMAIN ts /\ \A u \in DOMAIN ts \ {r.t} : S[u] = ts[u]
+                     /\ \A h \in AllFields \ {SetField(r.f)} : S[r.t][h] = ts[r.t][h]
+                     /\ ts' = S
+                  /\ dead' = dead /\ pinfo' = pinfo /\ Kf("v2-setter-not-atomic")
           ELSE CASE r.op = "create" -> Create(r)
                  [] r.op = "update" -> Update(r)
                  [] r.op = "set" -> Set(r)
                  [] r.op = "remove" -> Remove(r)
-                 [] r.op = "fixpoint" -> Fixpoint(r)
+                 [] r.op = "fixpoint" -> Fixpoint(r) \/ FixpointAfterSetters(r)
                  [] OTHER -> FALSE
        /\ ObsOK(r, ts', dead', fam, pinfo')
+       /\ vs' = IF Faulted(r) \/ r.out # "ok" THEN vs
+                ELSE CASE r.op = "set" -> vs \cup {r.t}
+                       [] r.op \in {"update", "remove", "fixpoint"} -> vs \ {r.t}
+                       [] r.op = "create" -> vs \ {r.new}
+                       [] OTHER -> vs
     /\ l' = l + 1 /\ UNCHANGED <<fam, fb, probing>>
 
 TReopen ==
@@ -162,14 +189,14 @@ TReopen ==
        /\ Unchanged(r)                                                       \* C10
        /\ ObsOK(r, ts, {}, fam, pinfo)
     /\ ~probing
-    /\ l' = l + 1 /\ UNCHANGED <<fam, fb, ts, dead, pinfo, probing>>
+    /\ l' = l + 1 /\ UNCHANGED <<fam, fb, ts, dead, pinfo, probing, vs>>
 
 TReset ==
     /\ l <= Len(Log)
     /\ LET r == Log[l] IN
        /\ r.e = "reset" /\ r.out = "ok"
        /\ fam' = r.family /\ fb' = (r.schema \in FbSchemas)
-       /\ ts' = <<>> /\ dead' = {} /\ pinfo' = <<>>
+       /\ ts' = <<>> /\ dead' = {} /\ pinfo' = <<>> /\ vs' = {}
        /\ ObsOK(r, <<>>, {}, r.family, <<>>)
     /\ probing' = FALSE
     /\ l' = l + 1
@@ -177,9 +204,9 @@ TReset ==
 \* the driver could not attempt a scripted call (its subject was never created): nothing happened
 TSkip ==
     /\ l <= Len(Log) /\ Log[l].e = "skip"
-    /\ l' = l + 1 /\ UNCHANGED <<fam, fb, ts, dead, pinfo, probing>>
+    /\ l' = l + 1 /\ UNCHANGED <<fam, fb, ts, dead, pinfo, probing, vs>>
 
-TInit == l = 1 /\ fam = "v2" /\ fb = TRUE /\ ts = <<>> /\ dead = {} /\ pinfo = <<>> /\ probing = FALSE
+TInit == l = 1 /\ fam = "v2" /\ fb = TRUE /\ ts = <<>> /\ dead = {} /\ pinfo = <<>> /\ probing = FALSE /\ vs = {}
 TNext == TCall \/ TProbe \/ TReopen \/ TReset \/ TSkip
 TSpec == TInit /\ [][TNext]_tvars
 Accepted == TLCGet("stats").diameter - 1 = Len(Log)
